@@ -108,6 +108,49 @@ def tag_tables(ctx, cr):
                     work.append(c)
         consulted[k] = tabs
         ctx.ob(rule, "%s:user:%s:translates" % (rule, k.split("::")[-1]), translates, "must translate the tag with short_form_to_long", fn=f)
+    # ... and path by path: the tag is expanded iff it is in SINGLE_VALUE_FUNC_REF or in SEQUENCE_VALUE_FUNC_REF, whatever the payload
+    for k in users:
+        f = cr.fns.get(k)
+        if not f:
+            continue
+        rets = []
+
+        class DH(ai.Hooks):
+            def inline(self, a, st, key, fn):
+                return "func_ref" in key and key.startswith("rules::")
+
+            def ret(self, a, st, v):
+                rets.append(st.mon or Mon())
+
+            def call(self, a, st, term, callee, args):
+                c = callee.get("key", "")
+                mon = st.mon or Mon()
+                m_ = re.match(r"<rules::(\w+)_VALUE_FUNC_REF as std::ops::Deref>::deref$", c)
+                if m_:
+                    return [(("ref", ("X", "TABLE:" + m_.group(1)), ()), mon)]
+                if c.endswith("HashSet<T,S,A>::contains"):
+                    v = a.resolve(st, args[0])
+                    tab = v[1][1].split(":")[1] if v[0] == "ref" and str(v[1][1]).startswith("TABLE:") else None
+                    if tab:
+                        return [(("bool", True), mon.set(**{tab: True})), (("bool", False), mon.set(**{tab: False}))]
+                if c == "rules::short_form_to_long":
+                    return [(("sym", "LONG"), mon.set(expand=True))]
+                return None
+        a = ai.AI(cr, DH(), max_states=200000)
+        try:
+            a.run(k, mon=Mon())
+        except ai.Undecided as e:
+            ctx.ob(rule, "%s:user:%s:decision" % (rule, k.split("::")[-1]), False, "undecided %s" % e, fn=f)
+            continue
+        ctx.states += a.n_states
+        bad = set()
+        for mon in rets:
+            sg_, sq_, ex = mon.get("SINGLE"), mon.get("SEQUENCE"), bool(mon.get("expand"))
+            if ex and not (sg_ is True or sq_ is True):
+                bad.add("expands a tag that is in neither table (single=%s sequence=%s)" % (sg_, sq_))
+            if not ex and not (sg_ is False and sq_ is False):
+                bad.add("leaves the tag unexpanded without having found it absent from BOTH tables (single=%s sequence=%s): the decision depends on the kind of the payload" % (sg_, sq_))
+        ctx.ob(rule, "%s:user:%s:decision" % (rule, k.split("::")[-1]), bool(rets) and not bad, "; ".join(sorted(bad)) or "%d paths: expanded iff in SINGLE or SEQUENCE table" % len(rets), fn=f)
     sets = set(frozenset(v) for v in consulted.values())
     for k, tabs in sorted(consulted.items()):
         union = set().union(*consulted.values())
